@@ -331,20 +331,24 @@ void sm4_cbc_encrypt_blocks(const SM4_KEY *key, uint8_t iv[16],
 void sm4_cbc_decrypt_blocks(const SM4_KEY *key, uint8_t iv[16],
 	const uint8_t *in, size_t nblocks, uint8_t *out)
 {
-	const uint8_t *piv = iv;
+	uint8_t prev[16];
+	uint8_t cur[16];
 
+	// keep a copy of each ciphertext block: in and out may be the same buffer
+	memcpy(prev, iv, 16);
 	while (nblocks--) {
 		size_t i;
+		memcpy(cur, in, 16);
 		sm4_encrypt(key, in, out);
 		for (i = 0; i < 16; i++) {
-			out[i] ^= piv[i];
+			out[i] ^= prev[i];
 		}
-		piv = in;
+		memcpy(prev, cur, 16);
 		in += 16;
 		out += 16;
 	}
 
-	memcpy(iv, piv, 16);
+	memcpy(iv, prev, 16);
 }
 
 static void ctr_incr(uint8_t a[16]) {
